@@ -75,6 +75,13 @@ class LocalHashFileDB(HashFileDB):
 
         return ret
 
+    def list_oids_exists(self, oids, jobs=None):
+        # NOTE: used to validate/extend the ODB index (see status). For a local
+        # ODB an object that exists but is not valid (e.g. left incomplete by an
+        # interrupted add) is not there: it would otherwise get indexed, and
+        # never be transferred again.
+        return self.oids_exist(list(oids), jobs=jobs)
+
     def _list_paths(self, prefix=None):
         assert self.path is not None
         if prefix:
